@@ -172,6 +172,8 @@ def assess(ctx, forms, system, vb, C, pd, v, mass, case, sig, records, soft=Fals
             # ---- trace records (not for the soft crystals: their compliances do not fit the integer scaling of the trace format) ----
             for it in range(nt if not soft else 0):
                 for iv in range(ntv):
+                    if not pd[it, iv] or not all(numpy.isfinite(rep[n][it, iv]) for n in rep) or not numpy.all(numpy.isfinite(S[it, iv])):
+                        continue                         # (the clauses hold where the stiffness is positive definite)
                     ci = numpy.rint(C[it, iv] * 10).astype(int)
                     si = numpy.rint(S[it, iv] * 1e6).astype(int)
                     islack = int(6 * (0.5 * numpy.max(numpy.abs(si)) + 0.5 * numpy.max(numpy.abs(ci))) + 6)
@@ -229,6 +231,9 @@ def main(ctx, replay=None):
     usable = [r for r in records if r["pd"] and max(abs(x) for row in r["c"] for x in row) < 30000 and r["rho"] * r["vp"] ** 2 < 2 ** 30 // 3]
     ok, consumed, tres = validate_trace(ctx, "Trace_Averages", "Trace_Averages.cfg", usable, name="averages", timeout=900)
     ctx.cov["records"] = len(usable)
+    if ctx.tier == "thorough" and ok and len(usable) > 5:
+        from cv.trace import binding_control
+        binding_control(ctx, "Trace_Averages", "Trace_Averages.cfg", usable, 5, lambda r: dict(r, kh=r["kv"] + 5000), "averages_neg", "hill_mean")
     if not ok:
         bad = usable[consumed]
         ctx.violation(f"{bad['sys']}: sample record #{consumed} violates the averages specification (inverse / Hill mean / bounds / "
